@@ -5,6 +5,7 @@ import (
 	"fmt"
 
 	"verif/core"
+	"verif/corpus"
 	"verif/gen/tsrc"
 )
 
@@ -17,16 +18,28 @@ import (
 //     point), "grows" (all 6 passes succeed, each longer than the one before),
 //     "unstable" (neither, or a later pass fails), or "error" (the formatter's
 //     first output cannot be formatted again).
-func Check(src string) tsrc.Outcome {
+func Check(src string) tsrc.Outcome { return check(src, tsrc.Fmt, false) }
+
+// CheckFile is the same oracle for `templ fmt <file>` (fmtcmd with a file
+// name: imports.Process rewrites the import section between parsing and
+// writing): `templ fmt` followed by `templ fmt -fail` must agree. When the
+// command refuses a file (goimports cannot process the generated code) it
+// writes nothing, so there is nothing to compare: counted as fmt_refused.
+func CheckFile(src string) tsrc.Outcome { return check(src, tsrc.FmtFile, true) }
+
+func check(src string, format func(string) (string, error), named bool) tsrc.Outcome {
 	if _, err := tsrc.Gen(src); err != nil {
 		return tsrc.Outcome{}
 	}
-	F, err := tsrc.Fmt(src)
+	F, err := format(src)
+	if err != nil && named {
+		return tsrc.Outcome{Accepted: true, Note: "fmt_refused"}
+	}
 	if err != nil {
 		return tsrc.Outcome{Accepted: true, Changed: true, Class: "error", Detail: fmt.Sprintf("templ fmt fails on an accepted file: %v", err)}
 	}
 	o := tsrc.Outcome{Accepted: true, Changed: F != src}
-	F2, err := tsrc.Fmt(F)
+	F2, err := format(F)
 	if err != nil {
 		o.Class = "error"
 		o.Detail = fmt.Sprintf("fmt output cannot be formatted again (%v); fmt(x) = %s", err, core.Q(clip(body(F), 300)))
@@ -40,7 +53,7 @@ func Check(src string) tsrc.Outcome {
 	pass := 2 // cur is the output of pass 2
 	conv, broke := 0, false
 	for pass < 6 {
-		next, err := tsrc.Fmt(cur)
+		next, err := format(cur)
 		if err != nil {
 			broke = true
 			break
@@ -99,4 +112,15 @@ func Run(c *core.Ctx) {
 	r := tsrc.NewRunner(c, Check, "formatting is not idempotent")
 	r.Weaker = Weaker
 	r.Run()
+
+	// the named-file path of templ fmt (imports.Process), bounded workload
+	c.Assume("`templ fmt <file>` is driven through fmtcmd.Run with -stdin-filepath naming a file in a scratch module directory (same format function as the directory walk: parse, imports.Process, write); import cells only refer to standard-library packages and the templ module, so goimports resolves them without looking at the module cache")
+	tsrc.FmtFileDir(corpus.Scratch("c09fmt"), c.Repo)
+	rf := tsrc.NewRunner(c, CheckFile, "templ fmt <file> is not idempotent")
+	rf.Weaker, rf.Mode, rf.KeyPrefix, rf.NoRename = Weaker, "fmtfile", "fmtfile:", true
+	var progs []tsrc.Prog
+	for _, cl := range tsrc.ImportCells() {
+		progs = append(progs, tsrc.Prog{Origin: "impcell:" + cl.Name, Src: cl.Src})
+	}
+	rf.RunFile(progs)
 }
